@@ -1,6 +1,7 @@
 package main
 
 import (
+	"verif/internal/effects"
 	"fmt"
 	"os"
 	"sort"
@@ -153,13 +154,21 @@ func (c *Ctx) byteClasses() {
 }
 
 func (c *Ctx) builderEnds() {
-	c.Fixture("mini", "builder-ends", false, func(p *load.Program, tb *kinds.Table) *report.RuleResult {
-		r := small.BuilderEnds(p, "internal/position")
-		r.Merge(small.BuilderEnds(p, "internal/badposition"), "bad:")
+	c.Fixture("mini", "builder-ends", true, func(p *load.Program, tb *kinds.Table) *report.RuleResult {
+		w, err := effects.NewWorld(p)
+		if err != nil {
+			r := report.NewResult("builder-ends")
+			r.Unknown("ssa", "-", "", "undecided:ssa: "+err.Error())
+			return r
+		}
+		r := effects.BuilderEnds(w, "internal/position")
+		r.Merge(effects.BuilderEnds(w, "internal/badposition"), "bad:")
 		return r
 	})
-	if p, _, ok := c.RepoProgram(false); ok {
-		c.Add(small.BuilderEnds(p, "internal/position"))
+	if p, _, ok := c.RepoProgram(true); ok {
+		if w := c.world(p, "builder-ends"); w != nil {
+			c.Add(effects.BuilderEnds(w, "internal/position"))
+		}
 	}
 }
 
@@ -261,7 +270,6 @@ func init() {
 		Floors: []report.Floor{
 			{Rule: "pos-span", What: "nodes", Min: 900},
 			{Rule: "builder-ends", What: "combinators", Min: 12},
-			{Rule: "builder-ends", What: "helpers", Min: 4},
 			{Rule: "linear", What: "productions", Min: 1014},
 		},
 		Run: func(c *Ctx) {
